@@ -1,5 +1,7 @@
 import St4sd.Model.Confine
 import St4sd.Lemmas.C18Confine
+import St4sd.Model.C18Keys
+import St4sd.Model.C18Stagers
 /-!
 Witnesses for C18: the code as committed (`checkOld` = textual prefix test of data.py 227-232,
 `validateOld` = `Manifest.validate` refusing absolute keys only, deployment without guard) violates the
@@ -204,5 +206,83 @@ theorem string_prefix_check_extracts_into_sibling :
     escapes (stageExtractText dest ⟨fsSib, []⟩ ms) = true ∧
     (stageExtractFixed dest ⟨fsSib, []⟩ ms).2 = some Err.rejected ∧
     escapes (stageExtractFixed dest ⟨fsSib, []⟩ ms) = false := by decide
+
+/-! ### a copy entry that merges into an existing destination (`copytree(..., dirs_exist_ok=True)`)
+
+NOT the code: `shutil.copytree(src, dst)` refuses an existing destination, and that refusal is what keeps a copy
+entry from being written through a link that an earlier entry (another spelling of the same key) or an earlier
+deployment left at the destination — the guard of `expandPackageToDirectory` looks at the PARENT of the
+destination only.  `deployOneOverlay` is the guarded step with a merging copy. -/
+
+/-- `k` linked to `/o`, then `k/` copied (`k/` parses to the same entry as `k`): the guard passes (the parent is
+the instance directory), the merging copy follows the link and creates `/o/f`; no error.  The code as it is
+(`deployAllK true`) answers the second entry with an error and touches nothing outside. -/
+theorem overlay_copy_writes_through_link_of_alias_key :
+    let es := [KEntry.mk ['k'] [Seg.name ['o']] Method.link, KEntry.mk ['k', '/'] [Seg.name ['o']] Method.copy]
+    validateK true es = true ∧
+    (deployAllOverlay dest ⟨fs0, []⟩ (es.map KEntry.entry)).2 = none ∧
+    (deployAllOverlay dest ⟨fs0, []⟩ (es.map KEntry.entry)).1.fs.get [['f'], ['o']] = some (Node.file [['f'], ['o']]) ∧
+    escapes (deployAllOverlay dest ⟨fs0, []⟩ (es.map KEntry.entry)) = true ∧
+    (deployAllK true dest ⟨fs0, []⟩ es).2 = some Err.os ∧
+    escapes (deployAllK true dest ⟨fs0, []⟩ es) = false := by decide
+
+/-- the same through a history: the instance directory was deployed with `k` linked to `/o`; the manifest
+changes to `k: …:copy` and is deployed into the same directory again -/
+theorem overlay_copy_writes_through_link_of_earlier_deployment :
+    let st1 := (deployK true dest ⟨fs0, []⟩ [KEntry.mk ['k'] [Seg.name ['o']] Method.link]).1
+    let e2 := Entry.mk (parsePath ['k']) [Seg.name ['o']] Method.copy
+    (deployK true dest ⟨fs0, []⟩ [KEntry.mk ['k'] [Seg.name ['o']] Method.link]).2 = none ∧
+    (deployOneOverlay dest ⟨st1.fs, []⟩ e2).2 = none ∧
+    escapes (deployOneOverlay dest ⟨st1.fs, []⟩ e2) = true ∧
+    (deployOne true dest ⟨st1.fs, []⟩ e2).2 = some Err.os ∧
+    (deployOne true dest ⟨st1.fs, []⟩ e2).1.log = [] := by decide
+
+/-- a merging copy is harmless where the existing destination is a real directory of the instance -/
+theorem overlay_copy_onto_directory_stays_inside :
+    let es := [Entry.mk (parsePath ['k']) [Seg.name ['o']] Method.copy,
+               Entry.mk (parsePath ['k']) [Seg.name ['o']] Method.copy]
+    (deployAllOverlay dest ⟨fs0, []⟩ es).2 = none ∧ escapes (deployAllOverlay dest ⟨fs0, []⟩ es) = false := by decide
+
+/-! ### extraction relative to a process-wide `chdir`
+
+NOT the code: `tar.extractall(dest)` gets the absolute working directory.  `CStager` does
+`previous = getcwd(); chdir(dest); extractall(); chdir(previous)`; the current directory belongs to the process,
+so when a second component stages at the same time the members are created wherever the cwd points at that
+moment.  `/i/w` and `/i/u` are the two working directories, the process starts in `/o`. -/
+
+def fs2 : Fs := ([['u'], ['i']], Node.dir) :: fs0
+def dest2 : Path := [['u'], ['i']]
+def cwd0 : Path := [['o']]
+
+/-- two harmless one-member archives (`a`, `b`).  Schedule: first `chdir`, second `chdir`, first extracts and
+restores, second extracts and restores.  The first stager's member lands in the SECOND working directory, the
+second stager's member in `/o` (outside both), neither component receives its own file, and the process is left
+in the first working directory. -/
+theorem shared_cwd_interleaving_escapes :
+    let w := runCStagers fs2 cwd0 dest dest2 [Member.file (parsePath ['a'])] [Member.file (parsePath ['b'])]
+      [false, true, false, false, true, true]
+    w.a.res = none ∧ w.b.res = none ∧ w.a.prog.isEmpty = true ∧ w.b.prog.isEmpty = true ∧
+    w.a.log = [[['a'], ['u'], ['i']]] ∧ w.b.log = [[['b'], ['o']]] ∧
+    w.fs.get [['a'], ['w'], ['i']] = none ∧ w.fs.get [['b'], ['u'], ['i']] = none ∧
+    w.cwd = dest ∧ w.cwd ≠ cwd0 := by decide
+
+/-- one after the other (no interleaving) the same two stagers are fine — which is why no single-threaded run
+can tell the difference -/
+theorem shared_cwd_sequential_is_confined :
+    let w := runCStagers fs2 cwd0 dest dest2 [Member.file (parsePath ['a'])] [Member.file (parsePath ['b'])]
+      [false, false, false, true, true, true]
+    w.a.log = [[['a'], ['w'], ['i']]] ∧ w.b.log = [[['b'], ['u'], ['i']]] ∧ w.cwd = cwd0 := by decide
+
+/-- a properly nested preemption is fine too (the second stager runs completely between the first one's `chdir`
+and its extraction: it restores the cwd to the first working directory) — two preemptions are needed -/
+theorem shared_cwd_nested_is_confined :
+    let w := runCStagers fs2 cwd0 dest dest2 [Member.file (parsePath ['a'])] [Member.file (parsePath ['b'])]
+      [false, true, true, true, false, false]
+    w.a.log = [[['a'], ['w'], ['i']]] ∧ w.b.log = [[['b'], ['u'], ['i']]] ∧ w.cwd = cwd0 := by decide
+
+/-- the code as it is (absolute destinations, `runStagers`) under the corresponding member schedule -/
+theorem absolute_destinations_same_schedule_confined :
+    let w := runStagers fs2 dest dest2 [Member.file (parsePath ['a'])] [Member.file (parsePath ['b'])] [false, true]
+    w.a.log = [[['a'], ['w'], ['i']]] ∧ w.b.log = [[['b'], ['u'], ['i']]] := by decide
 
 end St4sd.C18.Witness
